@@ -1197,6 +1197,94 @@ pub fn c04_into(rep: &mut Report) {
         "what":"QUIC connections from 127.0.0.1 under 4 rule lists (deny loopback, deny another range, allow-then-deny-all, deny-all-then-allow): no request is processed on a denied connection, an admitted one is served"}));
 }
 
+
+// ------------------------------------------------------------------------------------------------
+// C17 over HTTP/3: a request with a body
+// ------------------------------------------------------------------------------------------------
+
+pub async fn forwarded_post_case(with_length: bool) -> Result<&'static str, Violation> {
+    let case = json!({"kind":"quic-forwarded-post","with_length":with_length});
+    let mk = |sig: String, what: String| Violation::new(sig, what, case.clone());
+    let origin = tokio::net::TcpListener::bind("127.0.0.1:0").await.map_err(|e| Violation::new("C17:machinery", e.to_string(), json!({})))?;
+    let oaddr = origin.local_addr().unwrap();
+    let ep = start(Cfg { clients: users(), allow_private: true, ..Cfg::default() }).await.map_err(|e| Violation::new("C17:machinery", e, json!({})))?;
+    let mut cl = QuicClient::new(ep.addr, &ClientOpts::default()).map_err(|e| Violation::new("C17:machinery", e, json!({})))?;
+    if !cl.handshake(Duration::from_secs(3)).await {
+        return Err(Violation::new("C17:machinery", "QUIC handshake failed", case));
+    }
+    let authority = format!("127.0.0.1:{}", oaddr.port());
+    let mut req = vec![
+        quiche::h3::Header::new(b":method", b"POST"),
+        quiche::h3::Header::new(b":scheme", b"http"),
+        quiche::h3::Header::new(b":authority", authority.as_bytes()),
+        quiche::h3::Header::new(b":path", b"/upload"),
+        quiche::h3::Header::new(b"proxy-authorization", AUTH.as_bytes()),
+    ];
+    if with_length {
+        req.push(quiche::h3::Header::new(b"content-length", b"4"));
+    }
+    let id = {
+        let h3 = cl.h3.as_mut().unwrap();
+        h3.send_request(&mut cl.conn, &req, false).map_err(|e| Violation::new("C17:machinery", e.to_string(), json!({})))?
+    };
+    cl.pump();
+    let _ = cl.send_body(id, b"data", true);
+    let mut os = None;
+    let t0 = std::time::Instant::now();
+    while os.is_none() && t0.elapsed() < Duration::from_secs(3) {
+        cl.pump();
+        let mut acc = Box::pin(origin.accept());
+        if let Some(Ok((s, _))) = door::poll_once(&mut acc).await {
+            os = Some(s);
+        }
+        drop(acc);
+        tokio::time::sleep(Duration::from_millis(2)).await;
+    }
+    let Some(mut os) = os else {
+        return Err(mk("C17:h3:not-forwarded:post".into(), "the origin was not contacted".into()));
+    };
+    let _ = os.set_linger(Some(Duration::ZERO));
+    let mut got = vec![];
+    let t0 = std::time::Instant::now();
+    let mut idle = 0;
+    while t0.elapsed() < Duration::from_secs(2) && idle < 150 {
+        cl.pump();
+        let mut tmp = [0u8; 2048];
+        let n = {
+            let mut r = Box::pin(os.read(&mut tmp));
+            door::poll_once(&mut r).await
+        };
+        match n {
+            Some(Ok(n)) if n > 0 => {
+                got.extend_from_slice(&tmp[..n]);
+                idle = 0;
+            }
+            Some(_) => break,
+            None => idle += 1,
+        }
+        tokio::time::sleep(Duration::from_millis(1)).await;
+    }
+    {
+        let mut w = Box::pin(os.write_all(b"HTTP/1.1 200 OK\r\nContent-Length: 0\r\n\r\n"));
+        door::until(&mut w, Duration::from_secs(1)).await;
+    }
+    let _ = cl.response(id, Duration::from_secs(2), 4096, None).await;
+    cl.close();
+    let text = String::from_utf8_lossy(&got).to_string();
+    let Some(h) = text.find("\r\n\r\n") else {
+        return Err(mk("C17:h3:request-not-equivalent:post".into(), format!("the origin received {text:?}")));
+    };
+    let head = text[..h].to_ascii_lowercase();
+    let body = &got[h + 4..];
+    let framed_by_length = head.contains("content-length: 4") && body == b"data";
+    let framed_by_chunks = head.contains("transfer-encoding: chunked") && body.ends_with(b"0\r\n\r\n");
+    if !framed_by_length && !framed_by_chunks {
+        let how = if with_length { "with-length" } else { "no-length" };
+        return Err(mk(format!("C17:request:body-framing:{how}:h3"), format!("the request body reached the origin without consistent framing: head {head:?}, {} body bytes", body.len())));
+    }
+    Ok("framed")
+}
+
 // ------------------------------------------------------------------------------------------------
 // drivers
 // ------------------------------------------------------------------------------------------------
@@ -1317,6 +1405,14 @@ pub fn c17_into(rep: &mut Report, tier: Tier) {
                 Ok(Err(v)) => rep.violation(v),
                 Err(p) => rep.violation(Violation::new("C17:h3:panic", p, json!({"kind":"quic-forwarded","framing":framing,"body":body}))),
             }
+        }
+    }
+    for with_length in [true, false] {
+        n += 1;
+        match super::guarded(|| run_blocking(forwarded_post_case(with_length))) {
+            Ok(Ok(c)) => classes.push(format!("post:{with_length}:{c}")),
+            Ok(Err(v)) => rep.violation(v),
+            Err(p) => rep.violation(Violation::new("C17:h3:panic", p, json!({"kind":"quic-forwarded-post","with_length":with_length}))),
         }
     }
     rep.add("evaluations", n);
@@ -1458,6 +1554,7 @@ pub fn replay(case: &serde_json::Value) -> Option<Result<(), Violation>> {
             let w = ["ping-host", "ping-marker", "download", "speedtest-host-download", "upload", "speedtest-host-upload"].into_iter().find(|x| Some(*x) == case["which"].as_str()).unwrap_or("ping-host");
             run_blocking(service_case(w)).map(|_| ())
         }
+        "quic-forwarded-post" => run_blocking(forwarded_post_case(case["with_length"].as_bool().unwrap_or(true))).map(|_| ()),
         "quic-forwarded" => {
             let f = ["cl", "chunked", "close"].into_iter().find(|x| Some(*x) == case["framing"].as_str()).unwrap_or("cl");
             run_blocking(forwarded_case(f, case["body"].as_u64().unwrap_or(40) as usize)).map(|_| ())
